@@ -67,6 +67,7 @@ def r201(ctx, res, include_visualization: bool):
     ef = ctx.effects
     n = 0
     n_mut = 0
+    derived: Dict[Tuple[str, str], List[str]] = {}
     for fi in ctx.repo.functions(include_visualization=include_visualization):
         s = ef.summ[fi.qual]
         if ".visualization" in fi.module.name and fi.cls is not None and fi.name in ("add", "show", "__init__"):
@@ -86,6 +87,19 @@ def r201(ctx, res, include_visualization: bool):
             continue
         for r in bad:
             chain = ef.chain(fi.qual, r)
+            # derived effect?  the write happens inside a callee that is itself reported (not a legitimate
+            # mutator for that root): report the root cause only and list this function among the affected callers
+            where_w, what_w = s.mut[r]
+            if what_w.startswith("call of ") and "{" in what_w:
+                cq = what_w[len("call of "):].split(" ")[0]
+                cr = what_w.split("{")[1].split("}")[0]
+                cf = ctx.types.fn_by_qual.get(cq)
+                if cf is not None:
+                    c_allowed = allowed_roots(ctx, cf)
+                    if not (c_allowed is not None and cr in c_allowed):
+                        derived.setdefault((cq, cr), []).append(fi.short)
+                        res.ob("R20.1", fi.where(), label, False, "affected through %s" % cf.short, nontrivial=False)
+                        continue
             res.ob("R20.1", fi.where(), label, False, "may write %s" % r)
             what = "its argument `%s`" % r[2:] if r.startswith("P:") and (fi.cls is None or r != "P:" + fi.params[0]) else \
                 ("its receiver" if r.startswith("P:") else "module state %s" % r[2:])
@@ -94,6 +108,11 @@ def r201(ctx, res, include_visualization: bool):
                 "%s %s modifies %s in place" % ("the in-place operation" if allowed is not None else "the query/constructor", fi.short, what),
                 construct="%s writes %s" % (fi.short, r),
                 detail={"effect chain (outermost first)": chain})
+    for f in res.findings:
+        if f.rule == "R20.1":
+            for (cq, cr), callers in derived.items():
+                if cq.split(":")[-1] == f.function:
+                    f.detail["callers affected (transitively)"] = sorted(set(callers))[:40]
     res.count("functions analysed", n)
     res.count("declared in-place mutators", n_mut)
     ctx.require(res, "R20.1", n, 150, "functions")
@@ -133,6 +152,24 @@ def r202(ctx, res):
                           construct="%s reads global %s" % (fi.short, r))
     res.ob("R20.2", "geometry/ calc/ utils/", "%d functions" % n, True,
            "no write of module state outside utils/constant.py and utils/logger.py; mutable globals read: tolerance configuration and logger only")
+    # memoised functions hand out shared objects
+    eng = ctx.types
+    for fi in ctx.repo.functions(include_visualization=False):
+        if not fi.memoized:
+            continue
+        rets = set()
+        for _, sm in eng.summaries_of(fi):
+            rets |= set(sm.ret)
+        mutable = sorted(str(t) for t in rets if eng.is_class_tag(t) or (isinstance(t, tuple) and t[0] in ("list", "set", "dict")))
+        ok = not mutable
+        res.ob("R20.2", fi.where(), "%s is memoised (%s)" % (fi.short, ", ".join(fi.decorators)), ok,
+               "remembered results are immutable values" if ok else "remembered results are mutable objects: %s" % mutable)
+        if not ok:
+            res.violation("R20.2", fi, fi.node,
+                          "%s is memoised and returns a mutable %s: every caller receives the same object, so an in-place change made "
+                          "through one of them (move, coordinate assignment, Line.move on a stored vector) changes what all later "
+                          "calls return -- answers depend on the history" % (fi.short, "/".join(mutable)),
+                          construct="%s memoised mutable result" % fi.short)
     # class-level mutable state
     k = 0
     for c in ctx.repo.classes():
